@@ -74,7 +74,7 @@ func assumeFirstPrefixSmall(stream []byte, max int) {
 //
 //verif:harness property=C03
 func HarnessC03Envelope() {
-	L := bound("streamLen", 6, 8)
+	L := bound("streamLen", 7, 8)
 	stream := nondetBytes("stream", L)
 	assumeFirstPrefixSmall(stream, L)
 	// a second frame, if any, starts after the first one's payload
